@@ -67,7 +67,7 @@ def c03(res, tier, a):
 
 def c04(res, tier, a):
     from checks import c04 as m
-    comps = _components(a, ["ops"])
+    comps = _components(a, ["ops", "runtime"])
     with Scratch(slot()) as sc:
         ws.inject(sc)
         drv = ws.Driver(ws.build_driver(sc))
@@ -75,9 +75,11 @@ def c04(res, tier, a):
         if "ops" in comps:
             k = kernels.Kernels(sc, drv, res, tier, props=())
             cov.update(m.run_ops(res, tier, drv, k.constructed_operators()))
+        if "runtime" in comps:
+            cov.update(m.run_runtime(res, tier, sc, drv))
         res.coverage.update(cov)
-        res.coverage["states"] = max(1, cov.get("operator_obligations", 0))
-        res.coverage["transitions"] = max(1, cov.get("operator_obligations", 0))
+        res.coverage["states"] = max(1, cov.get("operator_obligations", 0) + cov.get("runtime_obligations", 0))
+        res.coverage["transitions"] = max(1, cov.get("operator_obligations", 0) + cov.get("runtime_obligations", 0))
         res.coverage["traces_validated_against_impl"] = 0
         res.coverage["explanation"] = "one obligation per operator over all pairs of i32 operands"
 
